@@ -107,21 +107,37 @@ func (s *Store) Canon(t *Term) *Term {
 		return t
 	}
 	asg := map[*Term]bool{}
-	var build func(i int) *Term
+	conf := s.eqConflicts(atoms)
+	var build func(i int) *Term // nil: no feasible assignment below
 	build = func(i int) *Term {
 		if i == len(atoms) {
 			return s.Bool(s.evalBool(t, asg, map[*Term]bool{}))
 		}
-		asg[atoms[i]] = true
-		hi := build(i + 1)
+		var hi *Term
+		feasible := true
+		for _, j := range conf[i] {
+			if asg[atoms[j]] {
+				feasible = false // x == c1 and x == c2 cannot both hold
+			}
+		}
+		if feasible {
+			asg[atoms[i]] = true
+			hi = build(i + 1)
+		}
 		asg[atoms[i]] = false
 		lo := build(i + 1)
-		if hi == lo {
+		if hi == nil {
+			return lo
+		}
+		if lo == nil || hi == lo {
 			return hi
 		}
 		return s.Op("ite", TBool, atoms[i], hi, lo)
 	}
 	r := build(0)
+	if r == nil {
+		r = s.False
+	}
 	canonMemo[t] = r
 	canonMemo[r] = r
 	return r
@@ -141,6 +157,7 @@ func (s *Store) Implies(p, q *Term) bool {
 		return false
 	}
 	asg := map[*Term]bool{}
+	conf := s.eqConflicts(atoms)
 	var rec func(i int) bool
 	rec = func(i int) bool {
 		if i == len(atoms) {
@@ -149,14 +166,44 @@ func (s *Store) Implies(p, q *Term) bool {
 			}
 			return true
 		}
-		asg[atoms[i]] = true
-		if !rec(i + 1) {
-			return false
+		feasible := true
+		for _, j := range conf[i] {
+			if asg[atoms[j]] {
+				feasible = false
+			}
+		}
+		if feasible {
+			asg[atoms[i]] = true
+			if !rec(i + 1) {
+				return false
+			}
 		}
 		asg[atoms[i]] = false
 		return rec(i + 1)
 	}
 	return rec(0)
+}
+
+// eqConflicts: for each atom i, the earlier atoms j such that atoms i and j are equalities x == c1, x == c2 of the
+// same integer term with different constants (at most one of them holds). The only arithmetic fact the
+// propositional reasoning knows.
+func (s *Store) eqConflicts(atoms []*Term) [][]int {
+	conf := make([][]int, len(atoms))
+	for i, a := range atoms {
+		if a.Op != "eq0" {
+			continue
+		}
+		for j := 0; j < i; j++ {
+			b := atoms[j]
+			if b.Op != "eq0" {
+				continue
+			}
+			if d, ok := s.Sub(a.Args[0], b.Args[0]).IntVal(); ok && d != 0 {
+				conf[i] = append(conf[i], j)
+			}
+		}
+	}
+	return conf
 }
 
 func (s *Store) Exclusive(p, q *Term) bool { return s.Implies(p, s.Not(q)) }
@@ -258,4 +305,83 @@ func (s *Store) Restrict(t *Term, p *Term) *Term {
 		}
 	}
 	return t
+}
+
+// RestrictDeep resolves, anywhere inside t, the selections (ite) whose condition is decided by the assumption p.
+func (s *Store) RestrictDeep(t *Term, p *Term) *Term {
+	if t == nil || p == nil || p == s.True {
+		return t
+	}
+	hasIte := false
+	Walk(t, map[*Term]bool{}, func(x *Term) {
+		if x.Op == "ite" {
+			hasIte = true
+		}
+	})
+	if !hasIte {
+		return t
+	}
+	memo := map[*Term]*Term{}
+	decided := map[*Term]int{} // condition -> 1 true, 2 false, 3 open
+	var rec func(t *Term) *Term
+	rec = func(t *Term) *Term {
+		if r, ok := memo[t]; ok {
+			return r
+		}
+		var r *Term
+		switch {
+		case t.K != KOp:
+			r = t
+		case t.Op == "ite":
+			c := t.Args[0]
+			d := decided[c]
+			if d == 0 {
+				switch {
+				case s.Implies(p, c):
+					d = 1
+				case s.Implies(p, s.Not(c)):
+					d = 2
+				default:
+					d = 3
+				}
+				decided[c] = d
+			}
+			switch d {
+			case 1:
+				r = rec(t.Args[1])
+			case 2:
+				r = rec(t.Args[2])
+			default:
+				na := []*Term{rec(t.Args[0]), rec(t.Args[1]), rec(t.Args[2])}
+				if na[0] == t.Args[0] && na[1] == t.Args[1] && na[2] == t.Args[2] {
+					r = t
+				} else {
+					r = s.Op("ite", t.Ty, na...)
+				}
+			}
+		default:
+			changed := false
+			na := make([]*Term, len(t.Args))
+			for i, a := range t.Args {
+				na[i] = rec(a)
+				if na[i] != a {
+					changed = true
+				}
+			}
+			if !changed {
+				r = t
+			} else if t.Op == "lin" {
+				acc := s.linMake(nil, nil, t.Off)
+				for i, a := range na {
+					acc = s.Add(acc, s.MulC(a, t.Coefs[i]))
+				}
+				r = acc
+			} else {
+				r = s.rebuild(t, na)
+			}
+		}
+		memo[t] = r
+		return r
+	}
+	return rec(t)
 }
